@@ -326,6 +326,7 @@ def plan_calls(ctx, r, spec, codec, svc_obj, per_method):
             if out_full == "google.protobuf.Empty":
                 replies = [{} for _ in replies]
             base = {"method": attr, "py_request": rpc.py_type(m.input), "consume": "auto", "probe_bool": True,
+                    "call_kwargs": {"timeout": 6.0},       # a deadline, so that a mis-wired stub fails instead of hanging
                     "script": {pth: [{"replies": [codec.encode_b64(out_full, x) for x in replies]}] for pth in paths}}
             if me["cs"]:
                 reqs = [rpc.rand_msg(r, codec, in_full) for _ in range(r.randint(0, 3))]
@@ -435,7 +436,7 @@ def run_api(ctx, r, spec, label, per_method=1, informational=None):
                      "calls": [copy.deepcopy(p["call"]) for p in plans]} for asy in (False, True)]
         import time
         for attempt in range(8):
-            out = libhost.run(root, sessions, timeout=600)
+            out = libhost.run(root, sessions, timeout=150)
             bad = [str(o.get("child_error", "")) for o in out if "child_error" in o]
             if bad and any("/verif/harness/" in b and ("IndentationError" in b or "SyntaxError" in b) for b in bad):
                 time.sleep(5)          # a shared harness file is being edited by a concurrent builder
@@ -714,15 +715,30 @@ def run(ctx):
     run_corpus(ctx)
     names_t2(ctx, ctx.rng("names"), ctx.n(300, 4000))
     r = ctx.rng("apis")
-    for a in range(ctx.n(16, 260)):
+    import time
+    t0 = time.time()
+    for a in range(ctx.n(24, 260)):
+        if _trouble(ctx) and time.time() - t0 > ctx.n(150, 600):
+            break          # something is already wrong and slow (deadlines expiring): report what we have
         run_api(ctx, r, gen_spec(r, a), f"api{a}", per_method=ctx.n(1, 2))
-    if not ctx.quick:
+    if not ctx.quick and not _trouble(ctx):
         member_collision_sweep(ctx, ctx.rng("members"))
 
 
+def _trouble(ctx):
+    known = {f["key"] for f in ctx.known}
+    return bool(ctx.disagreements) or any(f["key"] not in known for f in ctx.failures)
+
+
 def search(ctx):
+    """failing-input search after a broken obligation/correspondence (time-boxed)"""
+    import time
+    t0 = time.time()
     r = ctx.rng("search")
-    for a in range(24):
+    known = {f["key"] for f in ctx.known}
+    for a in range(40):
+        if time.time() - t0 > 240 or any(f["key"] not in known for f in ctx.failures):
+            return
         run_api(ctx, r, gen_spec(r, a), f"search{a}", per_method=2)
     member_collision_sweep(ctx, ctx.rng("search-members"))
 
